@@ -77,9 +77,19 @@ def gen_case(rng, tier, index):
     hist = eread.read_hist(rng, fmt="fb",
                            compression=rng.choice(dsgen.RUST_COMPRESSIONS),
                            max_sessions=2, splits=rng.sample(dsgen.SPLITS, 2))
+    # attribute layouts: explicit byte order in the declared dtype
+    for a in hist["structure"]["attrs"]:
+        if a["dtype"] not in ("uint8", "int8") and rng.random() < 0.4:
+            a["dtype"] = rng.choice([">", "<", "="]) + {
+                "int16": "i2", "int32": "i4", "int64": "i8", "uint16": "u2",
+                "uint32": "u4", "uint64": "u8", "float16": "f2",
+                "float32": "f4", "float64": "f8"}[a["dtype"]]
     return {"kind": "e2e", "hist": hist,
             "op": rng.choice(["sequence", "sequence", "shuffled", "two_iters",
-                              "two_iters", "abandon", "abandon"]),
+                              "two_iters", "abandon", "abandon"] +
+                             (["slow_consumer"] if rng.random() < 0.35
+                              else [])),
+            "pause": 2.5 if tier == "quick" else rng.choice([2.5, 6.0]),
             "fp_sel": rng.choice([1, 2, 3, "s", "s+2", "s-1", 9]),
             "p": rng.randrange(0, 12), "seed": rng.getrandbits(32)}
 
@@ -211,6 +221,20 @@ def run_e2e(case):
                     split=a, repeat=False, shuffle=0, file_parallelism=fp))
                 return ("sequence", got == ref, [i for i, _ in got][:12],
                         [i for i, _ in ref][:12])
+            if op == "slow_consumer":
+                # clocks inside the extension cannot be virtualised: one real
+                # pause of the consumer while workers sit idle (catches idle
+                # time-outs up to the pause length only)
+                got = []
+                it = iter(ds.as_numpy_iterator_rust(
+                    split=a, repeat=False, shuffle=0,
+                    file_parallelism=max(1, min(fp, max(1, n - 1)))))
+                for k, e in enumerate(it):
+                    got.append(dsgen.canon(e, attrs))
+                    if k == 0:
+                        time.sleep(case.get("pause", 2.5))
+                return ("slow_consumer", got == ref, [i for i, _ in got][:12],
+                        [i for i, _ in ref][:12])
             if op == "shuffled":
                 got = ids(ds.as_numpy_iterator_rust(
                     split=a, repeat=False, shuffle=7, file_parallelism=fp))
@@ -277,6 +301,8 @@ def run_e2e(case):
                        key=key, detail=f"{ctx}: got {val[2]} expected {val[3]}")
         h.update(repr((op, fp, status, val if status == "ok" else "")).encode())
         probes["e2e_" + op] += 1
+        if any(a["dtype"].startswith(">") for a in attrs):
+            probes["big_endian_declared"] += 1
         probes["compression_" + (st["compression"] or "none")] += 1
         if fp > n:
             probes["threads_above_shards"] += 1
@@ -319,7 +345,7 @@ def reach(agg):
     for name in ("out_of_order_completion", "early_drop",
                  "threads_above_tasks", "threads_equal_tasks", "empty_input",
                  "e2e_sequence", "e2e_shuffled", "e2e_two_iters",
-                 "e2e_abandon", "compression_LZ4", "compression_GZIP",
+                 "e2e_abandon", "e2e_slow_consumer", "big_endian_declared", "compression_LZ4", "compression_GZIP",
                  "compression_ZLIB", "compression_none"):
         if not p.get(name):
             need.append(f"probe {name} never hit")
